@@ -605,11 +605,6 @@ def run_net(ctx, case, model=True):
         ctx.tag("net/shape/" + spec["k"])
         shp = geom.build_shape(spec)
         rr = call(n.find_lanelet_by_shape, shp)
-        if spec["k"] == "group":
-            # documented guard: only Circle / Polygon / Rectangle are accepted
-            impl_sh.append({"err": rr[1]} if rr[0] == "err" else {"ok": sorted(int(x) for x in rr[1])})
-            masks_sh.append([])
-            continue
         want, amb, amb_code, sure_code = [], [], [], []
         for i in ids:
             t, a = geom.shape_meets_ring(spec, rings[i], exported=True, band=BAND)
@@ -617,7 +612,7 @@ def run_net(ctx, case, model=True):
                 amb.append(i)
             elif t:
                 want.append(i)
-            if spec["k"] == "circ":
+            if geom.has_circle(spec):
                 tc, ac = geom.shape_meets_ring(spec, rings[i], exported=True, band=BAND, circ_scale=CODE_CIRC_SCALE)
                 if ac:
                     amb_code.append(i)
@@ -627,7 +622,7 @@ def run_net(ctx, case, model=True):
                 if a:
                     amb_code.append(i)
                 # touching: meets, but no interior point in common (recognised by an unsuccessful robust test)
-                if t and not a and geom.rings_intersect(rings[i], _spec_ring(spec), BAND)[1]:
+                if t and not a and spec["k"] != "group" and geom.rings_intersect(rings[i], _spec_ring(spec), BAND)[1]:
                     ctx.tag("net/shape/touching")
         masks_sh.append(amb_code)
         if amb:
@@ -643,12 +638,18 @@ def run_net(ctx, case, model=True):
         if got != want:
             miss, extra = sorted(set(want) - set(got)), sorted(set(got) - set(want))
             what = "misses" if miss else ("reports" if extra else "repeats")
-            if spec["k"] == "circ" and any(i in sure_code for i in miss):
+            if geom.has_circle(spec) and any(i in sure_code for i in miss):
                 what = "misses-within-half-radius"            # not explained by the known r/2 export
-            _fail(ctx, f"C06/find_lanelet_by_shape/{what}/{spec['k']}",
+            if len(set(got)) != len(got):
+                what = "repeats"
+            kk = kind_key(spec, lambda sp: (any(geom.shape_meets_ring(sp, rings[i], exported=True, band=BAND) == (True, False)
+                                                for i in miss), False)) if spec["k"] == "group" else spec["k"]
+            _fail(ctx, f"C06/find_lanelet_by_shape/{what}/{kk}",
                      f"shape {spec}: find_lanelet_by_shape = {got}, lanelets whose polygon meets the shape = {want} (route {route}, ops "
                      f"{[o['op'] for o in ops]})", dict(case, pts=[], shapes=[spec]))
         # create_from_lanelet_network(network, shape) keeps exactly the lanelets meeting the shape
+        if spec["k"] == "group":
+            continue            # (a ShapeGroup has no single exported geometry; the cut-out is not among the property's lookups)
         rc = call(LaneletNetwork.create_from_lanelet_network, n, shp)
         if rc[0] == "err":
             _fail(ctx, f"C06/create_from_lanelet_network/raises-{rc[1]}/{spec['k']}", f"create_from_lanelet_network(shape={spec}) raises {rc[2]}",
